@@ -223,7 +223,7 @@ func c15Batch(w *Worker, cases []*genCase, name string) {
 			continue
 		}
 		o.vw = vw
-		e := &ent{o: o, dense: lrm.Dense(vw.V), packed: lrm.Packed(vw.V)}
+		e := &ent{o: o, dense: lrm.Dense(vw.V), packed: packedIfIntact(w, vw.V)}
 		e.inputs = chooseInputs(o, e.dense, 4)
 		depth := 3
 		e.hist = histories(e.inputs, depth)
@@ -417,6 +417,10 @@ func c15Batch(w *Worker, cases []*genCase, name string) {
 			if len(short) >= 2 {
 				sjobs = append(sjobs, gen.SchedJob{Pkg: it.Pkg, Inputs: []string{short[0], short[len(short)-1]}, Bound: -1, MaxSchedules: 300000})
 			}
+			// the same with IsTrace = true (tracing must not couple the contexts either)
+			if len(ins) >= 2 {
+				sjobs = append(sjobs, gen.SchedJob{Pkg: it.Pkg, Inputs: []string{ins[1], ins[len(ins)-1]}, Bound: 2, MaxSchedules: 20000, Trace: true})
+			}
 			if w.Thorough() && len(ins) >= 3 {
 				sjobs = append(sjobs, gen.SchedJob{Pkg: it.Pkg, Inputs: []string{ins[1], ins[2], ins[0]}, Bound: 2, MaxSchedules: 30000},
 					gen.SchedJob{Pkg: it.Pkg, Inputs: []string{ins[2], ins[1], ins[2]}, Bound: 2, MaxSchedules: 30000})
@@ -430,6 +434,16 @@ func c15Batch(w *Worker, cases []*genCase, name string) {
 		}
 		key := e.o.c.Spec.Key()
 		w.Count("evaluations", 1)
+		if o.Kind == "skipped-after-deadlock" {
+			return
+		}
+		if o.Kind == "sched-deadlock" {
+			w.Violate("C15|deadlock|"+o.Pkg[len(o.Pkg)-1:]+"|"+key+"|"+strings.Join(o.Inputs, ","),
+				fmt.Sprintf("interleaved parses on separate contexts block each other: grammar [%s], inputs %q, schedule %v: parse %d never reaches its next lexer call or its end while the other parse is suspended (alone it returns normally): %s",
+					key, o.Inputs, o.BadSchedule, o.BadThread, o.Err),
+				&GCase{Origin: "c15", Extra: mustJSON(e.o.c)}, map[string]interface{}{"inputs": o.Inputs, "schedule": o.BadSchedule})
+			return
+		}
 		if o.Err != "" {
 			w.Note("INTERNAL: scheduler: " + o.Err)
 			return
